@@ -142,4 +142,25 @@ v("c11-n-notify-ge-flipped", "C11", "none", [(Q, "} else if elem.revision <= n.r
 v("c11-n-waitch-cap2", "C11", "none", [(Q, "ch := make(chan error, 1)", "ch := make(chan error, 2)")])
 v("c11-n-put-wait-via-local", "C11", "none", [(KV, "\treturn put, <-r.q.Add(ctx, string(req.Table), put.Header.Revision)", "\twait := r.q.Add(ctx, string(req.Table), put.Header.Revision)\n\terr = <-wait\n\treturn put, err")])
 
+# ---------------- C16 ----------------
+TABLES = "regattaserver/tables.go"
+v("c16-f6-parent", "C16", "C16.b", [(TBL, "\tif err := validateTxnOps(req.Success); err != nil {\n\t\treturn nil, err\n\t}\n\tif err := validateTxnOps(req.Failure); err != nil {\n\t\treturn nil, err\n\t}\n", "")], "parent of fix F6 (validator becomes unused but still compiles)")
+v("c16-failure-branch-not-validated", "C16", "C16.b", [(TBL, "\tif err := validateTxnOps(req.Failure); err != nil {\n\t\treturn nil, err\n\t}\n", "")])
+v("c16-validator-skips-value-limit", "C16", "C16.b", [(TBL, "\t\tif len(put.Value) > MaxValueLen {\n\t\t\treturn serrors.ErrValueLengthExceeded\n\t\t}\n\t}\n\treturn nil", "\t}\n\treturn nil")])
+v("c16-validator-off-by-one", "C16", "C16.b", [(TBL, "\t\tif len(put.Key) > key.LatestVersionLen {\n\t\t\treturn serrors.ErrKeyLengthExceeded\n\t\t}\n\t\tif len(put.Value) > MaxValueLen {", "\t\tif len(put.Key) > key.LatestVersionLen+1 {\n\t\t\treturn serrors.ErrKeyLengthExceeded\n\t\t}\n\t\tif len(put.Value) > MaxValueLen {")])
+v("c16-validator-first-op-only", "C16", "C16.b", [(TBL, "\t\tif len(put.Value) > MaxValueLen {\n\t\t\treturn serrors.ErrValueLengthExceeded\n\t\t}\n\t}\n\treturn nil", "\t\tif len(put.Value) > MaxValueLen {\n\t\t\treturn serrors.ErrValueLengthExceeded\n\t\t}\n\t\treturn nil\n\t}\n\treturn nil")])
+v("c16-put-value-limit-dropped", "C16", "C16.b", [(TBL, "\tif len(req.Value) > MaxValueLen {\n\t\treturn nil, serrors.ErrValueLengthExceeded\n\t}\n", "")])
+v("c16-iterate-range-no-limit-guard", "C16", "C16.a", [(KV, "func (s *KVServer) IterateRange(req *regattapb.RangeRequest, srv regattapb.KV_IterateRangeServer) error {\n\tif req.GetLimit() < 0 {\n\t\treturn status.Errorf(codes.InvalidArgument, \"limit must be a positive number\")\n\t} else if", "func (s *KVServer) IterateRange(req *regattapb.RangeRequest, srv regattapb.KV_IterateRangeServer) error {\n\tif")])
+v("c16-bad-limit-internal-code", "C16", "C16.a", [(KV, "func (s *KVServer) Range(ctx context.Context, req *regattapb.RangeRequest) (*regattapb.RangeResponse, error) {\n\tif req.GetLimit() < 0 {\n\t\treturn nil, status.Errorf(codes.InvalidArgument,", "func (s *KVServer) Range(ctx context.Context, req *regattapb.RangeRequest) (*regattapb.RangeResponse, error) {\n\tif req.GetLimit() < 0 {\n\t\treturn nil, status.Errorf(codes.Internal,")])
+v("c16-keysonly-countonly-or", "C16", "C16.a", [(KV, "func (s *KVServer) Range(ctx context.Context, req *regattapb.RangeRequest) (*regattapb.RangeResponse, error) {\n\tif req.GetLimit() < 0 {\n\t\treturn nil, status.Errorf(codes.InvalidArgument, \"limit must be a positive number\")\n\t} else if req.GetKeysOnly() && req.GetCountOnly() {", "func (s *KVServer) Range(ctx context.Context, req *regattapb.RangeRequest) (*regattapb.RangeResponse, error) {\n\tif req.GetLimit() < 0 {\n\t\treturn nil, status.Errorf(codes.InvalidArgument, \"limit must be a positive number\")\n\t} else if req.GetKeysOnly() && req.GetCountOnly() && req.GetLimit() > 0 {")])
+v("c16-delete-key-guard-only-without-rangeend", "C16", "C16.a", [(KV, "func (s *KVServer) DeleteRange(ctx context.Context, req *regattapb.DeleteRangeRequest) (*regattapb.DeleteRangeResponse, error) {\n\tif len(req.GetTable()) == 0 {\n\t\treturn nil, status.Errorf(codes.InvalidArgument, \"table must be set\")\n\t}\n\n\tif len(req.GetKey()) == 0 {", "func (s *KVServer) DeleteRange(ctx context.Context, req *regattapb.DeleteRangeRequest) (*regattapb.DeleteRangeResponse, error) {\n\tif len(req.GetTable()) == 0 {\n\t\treturn nil, status.Errorf(codes.InvalidArgument, \"table must be set\")\n\t}\n\n\tif len(req.GetKey()) == 0 && req.GetRangeEnd() == nil {")])
+v("c16-follower-writable-tables", "C16", "C16.e", [(FOL, "regattapb.RegisterTablesServer(r, &regattaserver.ReadonlyTablesServer{TablesServer: regattaserver.TablesServer{Tables: engine, AuthFunc: authFunc(viper.GetString(\"tables.token\"))}})", "regattapb.RegisterTablesServer(r, &regattaserver.TablesServer{Tables: engine, AuthFunc: authFunc(viper.GetString(\"tables.token\"))})")])
+v("c16-readonly-create-delegates", "C16", "C16.e", [(TABLES, "func (t *ReadonlyTablesServer) Create(context.Context, *regattapb.CreateTableRequest) (*regattapb.CreateTableResponse, error) {\n\treturn nil, status.Error(codes.Unimplemented, \"method Create not implemented for follower\")", "func (t *ReadonlyTablesServer) Create(ctx context.Context, req *regattapb.CreateTableRequest) (*regattapb.CreateTableResponse, error) {\n\tif req.Name == \"__bootstrap\" {\n\t\treturn t.TablesServer.Create(ctx, req)\n\t}\n\treturn nil, status.Error(codes.Unimplemented, \"method Create not implemented for follower\")")])
+v("c16-new-panic-in-handler-helper", "C16", "C16.f", [(TBL, "\tif len(req.Key) > key.LatestVersionLen {\n\t\treturn nil, serrors.ErrKeyLengthExceeded\n\t}\n\tif len(req.RangeEnd) > key.LatestVersionLen {", "\tif req.Limit < 0 {\n\t\tpanic(\"negative limit\")\n\t}\n\tif len(req.Key) > key.LatestVersionLen {\n\t\treturn nil, serrors.ErrKeyLengthExceeded\n\t}\n\tif len(req.RangeEnd) > key.LatestVersionLen {")])
+v("c16-lookup-returns-value-type", "C16", "C16.f", [(FSM, "\t\treturn &IndexResponse{Index: idx}, nil\n\tcase LeaderIndexRequest", "\t\treturn IndexResponse{Index: idx}, nil\n\tcase LeaderIndexRequest")])
+v("c16-put-error-swallowed", "C16", "C16.d", [(KV, "\tr, err := s.Storage.Put(ctx, req)\n\tif err != nil {\n\t\tif errors.Is(err, serrors.ErrTableNotFound) {\n\t\t\treturn nil, status.Error(codes.NotFound, \"table not found\")\n\t\t}\n\t\tif serrors.IsSafeToRetry(err) {\n\t\t\treturn nil, status.Error(codes.Unavailable, err.Error())\n\t\t}\n\t\treturn nil, status.Error(codes.FailedPrecondition, err.Error())", "\tr, err := s.Storage.Put(ctx, req)\n\tif err != nil {\n\t\tif errors.Is(err, serrors.ErrTableNotFound) {\n\t\t\treturn nil, status.Error(codes.NotFound, \"table not found\")\n\t\t}\n\t\tif serrors.IsSafeToRetry(err) {\n\t\t\treturn &regattapb.PutResponse{}, nil\n\t\t}\n\t\treturn nil, status.Error(codes.FailedPrecondition, err.Error())")])
+v("c16-n-table-guard-lt1", "C16", "none", [(KV, "func (s *KVServer) Txn(ctx context.Context, req *regattapb.TxnRequest) (*regattapb.TxnResponse, error) {\n\tif len(req.GetTable()) == 0 {", "func (s *KVServer) Txn(ctx context.Context, req *regattapb.TxnRequest) (*regattapb.TxnResponse, error) {\n\tif len(req.GetTable()) < 1 {")])
+v("c16-n-put-limits-reordered", "C16", "none", [(TBL, "\tif len(req.Key) == 0 {\n\t\treturn nil, serrors.ErrEmptyKey\n\t}\n\tif len(req.Key) > key.LatestVersionLen {\n\t\treturn nil, serrors.ErrKeyLengthExceeded\n\t}\n\tif len(req.Value) > MaxValueLen {", "\tif len(req.Key) > key.LatestVersionLen {\n\t\treturn nil, serrors.ErrKeyLengthExceeded\n\t}\n\tif len(req.Key) < 1 {\n\t\treturn nil, serrors.ErrEmptyKey\n\t}\n\tif len(req.Value) > MaxValueLen {")])
+v("c16-n-validator-ge", "C16", "none", [(TBL, "\t\tif len(put.Value) > MaxValueLen {\n\t\t\treturn serrors.ErrValueLengthExceeded\n\t\t}\n\t}\n\treturn nil", "\t\tif len(put.Value) >= MaxValueLen+1 {\n\t\t\treturn serrors.ErrValueLengthExceeded\n\t\t}\n\t}\n\treturn nil")])
+
 json.dump(V, sys.stdout, indent=1)
